@@ -333,6 +333,8 @@ RULES += engine.premise_rules("c03", ["revocation-table", "placement"])
 RULES += engine.premise_rules("c02", ["writeset", "inverse-seq", "probe-pair"])
 # the material count is count_ones of the board of the piece's own colour
 RULES += engine.premise_rules("c01", ["leaf-accessors"])
+# a position set up piece by piece or from a FEN has each piece on the board of its own kind and colour (C07.bijection)
+RULES += engine.premise_rules("c07", ["bijection", "letters"])
 
 
 def run(tier):
